@@ -70,6 +70,23 @@ CHECKS.update({
    tech="Lean 4 proof (Nodup/pigeonhole invariant of the greedy matching; polynomial inequality for MCC) + exact oracle-fed differential correspondence",
    ref="DESIGN.md §3 C19"),
 })
+CHECKS.update({
+ 'C02': dict(
+   text="Lean theorems for every detector satisfying the range contract (DetOK / DetInterior - themselves theorems for the five detector models in C09), every gate and t2: "
+        "multiKnee_total (fuel 2n+1 never exhausted), multiKnee_steps, multiKnee_eq_rec (the stack loop's sorted output IS the in-order recursion), multiKneeRec_unfold / "
+        "multiKnee_self_similar ({k} U result on points[0..k] U shifted result on points[k+1..]), multiKnee_sorted_range, multiKnee_interior, multiKnee_empty. "
+        "Tie: exact correspondence of multi_knee of the 5 modules with criterion oracles (never the detector's own knee()), plus the self-similarity predicate evaluated with real calls.",
+   note=TB + " Criterion arrays (gradients, ISODATA threshold, Menger curvature, L-method errors, Kneedle difference curve, SMAPE gate) are oracles from uts/package primitives.",
+   tech="Lean 4 proof (stack machine refines structural recursion; potential 2m-1) + exact oracle-fed differential correspondence",
+   ref="DESIGN.md §3 C02"),
+ 'C09': dict(
+   text="Lean theorems over arbitrary criterion arrays: curvKnee_range/opt/first, mengerKnee_range/opt/zero_iff_flat, dfdtInner_opt, dfdtKnee_range, dfdt_rounds_le, dfdtLoop_fuel "
+        "(the loop stops by its own condition within n rounds), lmethodScan_range/opt/first, lmethod_refine_total (terminates for none, original and adjusted, any error oracle, n>=5, limit>=4), "
+        "kneedleKnee_range/is_peak/highest/none_iff. Tie: exact oracle-fed correspondence of knee() of the five modules (all Fit x Refinement x limit), loop budget, direct optimum predicate.",
+   note=TB + " The criterion VALUES (|f''|/(1+f'^2)^1.5, ISODATA, Menger curvature, two-line error) are oracles here; their definitions are tied under C03/C16/C17.",
+   tech="Lean 4 proof (first-extremum specs; potential functions for the DFDT and L-method refinement loops) + exact oracle-fed differential correspondence",
+   ref="DESIGN.md §3 C09"),
+})
 NA = {}
 props = [json.loads(l) for l in open(os.path.join(V, 'properties.jsonl'))]
 checks = []
